@@ -5,10 +5,12 @@ import FuelVerif.Model.Outcome
 namespace FuelVerif.Drv.C28
 open FuelVerif FuelVerif.Outcome
 
-/-- events are accumulated newest-first; `rooted` = every event so far carried its encoding -/
+/-- events are accumulated newest-first; `rooted` = every event so far carried its encoding;
+    `carry` = what the (possibly reused) interpreter holds between transactions -/
 structure St where
   evs : List Ev := []
   rooted : Bool := true
+  carry : Carry := {}
 
 def kindOf : String → RKind
   | "call" => .call | "ret" => .ret | "retd" => .retd | "panic" => .panic | "revert" => .revert | "log" => .log
@@ -33,27 +35,30 @@ def finName : Final → String | .success => "success" | .revert => "revert" | .
 
 def step (st : St) (ws : List String) : St × String :=
   match ws with
-  | ["begin"] => ({}, ".")
+  | ["client"] => ({}, ".")                                  -- a new MemoryClient: fresh interpreter
+  | ["begin"] => ({ carry := st.carry }, ".")                 -- next transaction on the same client
   | ["ev", e, k, enc] =>
     let bytes := if enc == "-" || enc == "!" then [] else (ofHex enc).getD []   -- "!": the push is refused, the receipt never exists
     let r : Rcpt := ⟨kindOf k, bytes⟩
     let ev : Ev := match e with
       | "call" => .call r | "ret" => .ret r | "rvrt" => .rvrt r | "fault" => .fault r | _ => .emit r
-    ({ evs := ev :: st.evs, rooted := st.rooted && enc != "-" }, ".")
+    ({ st with evs := ev :: st.evs, rooted := st.rooted && enc != "-" }, ".")
   | ["end", srEnc, panEnc] =>
     let rooted := st.rooted && srEnc != "-"
     -- without encodings the hash is irrelevant to everything but the root: use a constant function
     let H : Bytes → Bytes := if rooted then sha else fun _ => []
     let sr : Final → Rcpt := fun _ => ⟨.scriptResult, (ofHex srEnc).getD []⟩
     let tmr : Rcpt := ⟨.panic, (ofHex panEnc).getD []⟩
-    match runEvents H sr tmr RCtx.empty 0 st.evs.reverse with
+    -- `transact` on the client's interpreter: init_inner (resets per the generated flags), then run_program
+    let (r, carry) := transactOn H sr tmr st.carry st.evs.reverse
+    match r with
     | .ok o =>
       let kinds := rle (o.rc.receipts.map (fun r => kindName r.kind))
       let root := if rooted then toHex (o.rc.root H) else "-"
-      ({}, s!"fin={finName o.fin} n={o.rc.receipts.length} kinds={",".intercalate kinds} root={root} revert={if shouldRevert o.rc.receipts then 1 else 0}")
-    | .error .unfinished => ({}, "model-unfinished")
-    | .error .vmError => ({}, "model-vm-error")
-    | .error .hostPanic => ({}, "model-host-panic")
+      ({ carry }, s!"fin={finName o.fin} n={o.rc.receipts.length} kinds={",".intercalate kinds} root={root} revert={if shouldRevert o.rc.receipts then 1 else 0}")
+    | .error .unfinished => ({ carry }, "model-unfinished")
+    | .error .vmError => ({ carry }, "model-vm-error")
+    | .error .hostPanic => ({ carry }, "model-host-panic")
   | _ => (st, "bad-op")
 
 def run : IO Unit := lineLoop ({} : St) step
